@@ -757,7 +757,7 @@ done:
 				switch tv := prev.(type) {
 				case []any:
 					for i, vv := range tv {
-						if tf.Match(vv) {
+						if tf.matchWithRoot(vv, data) {
 							if nv, changed := modifier(vv); changed {
 								tv[i] = nv
 								if one && changed {
@@ -770,7 +770,7 @@ done:
 					size := tv.Size()
 					for i := 0; i < size; i++ {
 						v = tv.ValueAtIndex(i)
-						if tf.Match(v) {
+						if tf.matchWithRoot(v, data) {
 							if nv, changed := modifier(v); changed {
 								tv.SetValueAtIndex(i, nv)
 								if one && changed {
@@ -781,7 +781,7 @@ done:
 					}
 				case gen.Array:
 					for i, vv := range tv {
-						if tf.Match(vv) {
+						if tf.matchWithRoot(vv, data) {
 							if nv, changed := modifier(vv); changed {
 								tv[i] = nv.(gen.Node)
 								if one && changed {
@@ -795,7 +795,7 @@ done:
 					sort.Strings(keys)
 					for _, k := range keys {
 						vv, _ := tv.ValueForKey(k)
-						if tf.Match(vv) {
+						if tf.matchWithRoot(vv, data) {
 							if nv, changed := modifier(vv); changed {
 								tv.SetValueForKey(k, nv)
 								if one && changed {
@@ -812,7 +812,7 @@ done:
 						for i := 0; i < cnt; i++ {
 							iv := rv.Index(i)
 							vv := iv.Interface()
-							if tf.Match(vv) {
+							if tf.matchWithRoot(vv, data) {
 								if nv, changed := modifier(vv); changed {
 									iv.Set(reflect.ValueOf(nv))
 									if one && changed {
@@ -829,7 +829,7 @@ done:
 						for _, k := range keys {
 							ev := rv.MapIndex(k)
 							vv := ev.Interface()
-							if tf.Match(vv) {
+							if tf.matchWithRoot(vv, data) {
 								if nv, changed := modifier(vv); changed {
 									nrv := reflect.ValueOf(nv)
 									if !nrv.IsValid() {
